@@ -117,6 +117,9 @@ pub struct ModSpec {
     /// the scripted at_sim_start panic (`panic_at`) only happens in this incarnation (0 = initial start)
     #[serde(default)]
     pub panic_inc: u16,
+    /// Module::reset panics (first reset only)
+    #[serde(default)]
+    pub reset_panics: bool,
 }
 
 #[derive(Debug)]
@@ -383,7 +386,10 @@ impl ScriptMod {
                 if cur.child("no-such-child-xyz").is_ok() {
                     children_ok = false;
                 }
-                rec(self.idx, Ev::Query { parent_ok, children_ok, path_ok: cur.path().as_str() == expected_path, name_ok: cur.name() == spec.name });
+                // the global view of the simulation must know this module under its path
+                let by_path = des::net::globals().get(&ObjectPath::from(expected_path.as_str()));
+                let global_ok = by_path.map_or(false, |r| r.id() == cur.id());
+                rec(self.idx, Ev::Query { parent_ok, children_ok, path_ok: cur.path().as_str() == expected_path && global_ok, name_ok: cur.name() == spec.name });
             }
             Act::SelfMsg { delay_ns } => {
                 let uid = uid_of(self.idx, site, ai, self.inc);
@@ -423,6 +429,9 @@ impl Module for ScriptMod {
         rec(self.idx, Ev::Reset { inc: self.inc });
         self.inc = self.inc.wrapping_add(1);
         self.rx_count = 0;
+        if self.spec().reset_panics && self.inc == 1 {
+            panic!("scripted panic in reset of module {}", self.idx);
+        }
     }
 
     fn stack(&self, stack: ProcessingStack) -> ProcessingStack {
